@@ -51,6 +51,9 @@ STANDINS = {
 }
 
 _O = {'name': '', 'model': {}}
+_LONG = replays2.dft_definition({'name': '', 'model': {}}).replace('for (int n = 1; n <= 96; ++n)', 'for (int n = 97; n <= 1536; ++n)')
+assert 'n = 97; n <= 1536' in _LONG
+STANDINS.setdefault('C01', []).append(('fft against the defining sum, longer lengths', 'every length 97..1536 (each its own factorisation tree / algorithm choice), real and complex input, padded / truncated form', _LONG))
 for _p, _name, _bound, _f in (
         ('C08', 'FIRInterpolator / FIRDecimator against the zero-stuff, filter, decimate chain', 'rate 2..5, symmetric coefficient vectors of every length 2..4R+3, 40 input (output) frames', replays3.multirate_chain),
         ('C13', 'welch against the averaged windowed periodograms; mscohere of a scaled copy', 'real input, window lengths and overlaps of the program, levels 1..1e-6', replays3.spectral_estimates),
